@@ -285,9 +285,34 @@ func c08SelfEnd(points []string) [][]string {
 	return cases
 }
 
+// c08BlockedDeliverer: the cluster behind a target stream stops reading, its sender's queue fills up, a receiver's hand-off
+// blocks on the full channel; the target stream reconnects (overlap) and the old incarnation ends, closing the channel the
+// hand-off is blocked on. Whatever the blocked hand-off does about the closed channel, the successor stays registered and
+// reachable. (Task batches and stalls are outside the registry model's op language: monitor only.)
+func c08BlockedDeliverer() [][]string {
+	var cases [][]string
+	for _, n := range []int{90, 104, 130} {
+		for _, order := range []int{0, 1, 2} {
+			ops := []string{"open 101", "open 201", "stall 1", fmt.Sprintf("flood 0 %d", n)}
+			switch order {
+			case 0: // successor first, then the old stream ends
+				ops = append(ops, "open 201", "settle", "break 1", "settle")
+			case 1: // the old stream ends first
+				ops = append(ops, "break 1", "settle", "open 201", "settle")
+			default: // no successor: control
+				ops = append(ops, "break 1", "settle")
+			}
+			ops = append(ops, "unstall 1", "flood 0 3", "settle", "wm 0 9000", "settle", "end")
+			cases = append(cases, ops)
+		}
+	}
+	return cases
+}
+
 func genC08(e *Env) [][]string {
 	var cases [][]string
 	cases = append(cases, c08SendFail()...)
+	cases = append(cases, c08BlockedDeliverer()...)
 	cases = append(cases, c08SelfEnd(c08QuickPoints)...)
 	pts := c08QuickPoints
 	gap := c08ReplayGap()
